@@ -295,6 +295,10 @@ macro_rules! vis_scalar {
     ($($m:ident : $t:ty),*) => {$(
         fn $m<E: de::Error>(self, x: $t) -> Result<V::Value, E> {
             let p = format!("{:?}", x);
+            // a key delivered as a scalar (a library that parses integer / bool / char keys): its text
+            if self.cx.in_key() {
+                self.cx.note_str(&x.to_string());
+            }
             let idx = self.cx.vis_enter(stringify!($m), &p)?;
             let r = self.v.$m(x);
             self.cx.vis_exit(idx, stringify!($m), &p, r)
